@@ -44,16 +44,16 @@ func names(es ...E) []string {
 func Core() Spec {
 	bad := []E{
 		fix(CreateBatch(D, "C01-001", date(2022, 1, 1), date(2023, 1, 1), true, nil, Iss(D, "5", "0"))), // D is no issuer
-		MintFresh(A, B2, B, "1", "0"),     // sealed
-		MintFresh(B, B1, B, "1", "0"),     // not the issuer
-		fix(Send(B, C, B1, "0.0000001", "0")),  // 7 decimal places
-		SendAll(B, C, B1, Eps, false),          // overdraw by the smallest unit
-		SendAll(C, B, B2, Eps, true),           // overdraw, retired leg
-		fix(Retire(D, B1, "1")),                // no balance
-		fix(Seal(B, B1)),                       // not the issuer
-		fix(Cancel(C, B2, "2.000001")),         // more than held
-		fix(Send(B, C, B1, "-1", "0")),         // negative
-		fix(Send(B, B, B1, "1", "0.5")),        // self send
+		MintFresh(A, B2, B, "1", "0"),         // sealed
+		MintFresh(B, B1, B, "1", "0"),         // not the issuer
+		fix(Send(B, C, B1, "0.0000001", "0")), // 7 decimal places
+		SendAll(B, C, B1, Eps, false),         // overdraw by the smallest unit
+		SendAll(C, B, B2, Eps, true),          // overdraw, retired leg
+		fix(Retire(D, B1, "1")),               // no balance
+		fix(Seal(B, B1)),                      // not the issuer
+		fix(Cancel(C, B2, "2.000001")),        // more than held
+		fix(Send(B, C, B1, "-1", "0")),        // negative
+		fix(Send(B, B, B1, "1", "0.5")),       // self send
 	}
 	good := []E{
 		fix(CreateBatch(A, "C01-001", date(2022, 1, 1), date(2023, 1, 1), true, nil, Iss(B, "2", "1.5"), Iss(B, "0.000001", "0"), Iss(D, "0", "0"))),
@@ -74,9 +74,15 @@ func Core() Spec {
 		fix(Cancel(C, B2, "2")),
 		fix(Cancel(B, B3, "1")),
 		fix(Seal(A, B1)),
+		// several entries in one message, the same batch twice
+		fix(SendN(B, C, SC(B1, "1", "0"), SC(B1, "0.5", "0.25"))),
+		fix(SendN(C, D, SC(B1, "0.5", "0"), SC(B2, "0.5", "0"))),
+		fix(RetireN(B, Cr(B1, "1"), Cr(B1, "0.5"))),
+		fix(CancelN(C, Cr(B1, "0.5"), Cr(B2, "0.5"))),
+		MintN(A, B1, Iss(B, "1", "0.5"), Iss(B, "0.25", "0"), Iss(C, "0", "1")),
 	}
 	return Spec{Name: "core", Seeds: []explore.Seed{PreparedSeed("prepared"), FreshCoreSeed()},
-		Events: append(good, bad...), DepthQuick: 3, DepthThor: 5, ExpectFail: expectFail(names(bad...)...), MinStates: 500}
+		Events: append(good, bad...), DepthQuick: 5, DepthThor: 6, ExpectFail: expectFail(names(bad...)...), MinStates: 500}
 }
 
 // FreshCoreSeed: a fresh chain with only a class, a project and one open batch
@@ -95,18 +101,19 @@ func FreshCoreSeed() explore.Seed {
 // Basket: put/take/transfer of basket tokens interleaved with credit moves.
 func Basket() Spec {
 	bad := []E{
-		fix(Put(D, NCT, BC(B1, "1"))),              // no credits
-		fix(Put(B, NCT, BC(B1, "0.0000001"))),      // 7 places
-		fix(Take(D, NCT, "1000000", false)),        // no tokens (unless received)
-		fix(Take(B, RCT, "1", false)),              // auto-retire basket, retire_on_take=false
-		fix(Put(C, "eco.uC.NOPE", BC(B1, "1"))),    // unknown basket
-		fix(Take(B, NCT, "2000001", false)),        // more than the basket holds in the seed
+		fix(Put(D, NCT, BC(B1, "1"))),           // no credits
+		fix(Put(B, NCT, BC(B1, "0.0000001"))),   // 7 places
+		fix(Take(D, NCT, "1000000", false)),     // no tokens (unless received)
+		fix(Take(B, RCT, "1", false)),           // auto-retire basket, retire_on_take=false
+		fix(Put(C, "eco.uC.NOPE", BC(B1, "1"))), // unknown basket
+		fix(Take(B, NCT, "2000001", false)),     // more than the basket holds in the seed
 	}
 	good := []E{
 		fix(Put(B, NCT, BC(B1, "1.5"))),
 		fix(Put(B, NCT, BC(B1, Eps), BC(B2, "1"))),
 		fix(Put(C, NCT, BC(B2, "2"))),
 		fix(Put(C, RCT, BC(B1, "1e0"))),
+		fix(Put(B, NCT, BC(B1, "0.5"), BC(B1, "0.25"))), // the same batch twice in one message
 		fix(Put(B, RCT, BC(B3, "4"))),
 		fix(Take(B, NCT, "1", false)),
 		fix(Take(B, NCT, "1500000", true)),
@@ -124,7 +131,7 @@ func Basket() Spec {
 		MintFresh(A, B1, C, "2", "0"),
 	}
 	return Spec{Name: "basket", Seeds: []explore.Seed{PreparedSeed("prepared"), FreshCoreBasketSeed()},
-		Events: append(good, bad...), DepthQuick: 3, DepthThor: 5, ExpectFail: expectFail(names(bad...)...), MinStates: 500}
+		Events: append(good, bad...), DepthQuick: 5, DepthThor: 6, ExpectFail: expectFail(names(bad...)...), MinStates: 500}
 }
 
 // FreshCoreBasketSeed adds the two baskets to FreshCoreSeed (batch denoms equal
@@ -152,22 +159,26 @@ func Market() Spec {
 	ur := func(n int64) sdk.Coin { return coin("uregen", n) }
 	ib := func(n int64) sdk.Coin { return coin(IBC, n) }
 	bad := []E{
-		fix(Sell(D, B1, "1", ur(3), true, nil)),                         // no credits
-		fix(Sell(B, B1, "1", coin("stake2", 3), true, nil)),             // denom not allowed
-		CancelOrder(C, B, 0),                                            // not the seller
-		UpdateOrder(C, B, 0, "5", nil, true, nil),                       // not the seller
+		fix(Sell(D, B1, "1", ur(3), true, nil)),             // no credits
+		fix(Sell(B, B1, "1", coin("stake2", 3), true, nil)), // denom not allowed
+		CancelOrder(C, B, 0),                                // not the seller
+		UpdateOrder(C, B, 0, "5", nil, true, nil),           // not the seller
 		Buy(D, "over-ask-qty", BuySpec{Seller: B, K: 0, Qty: "+eps", DAR: true}),
 		Buy(D, "underbid", BuySpec{Seller: B, K: 0, Qty: "0.5", BidAdj: -1, DAR: true}),
 		Buy(D, "wrong-denom", BuySpec{Seller: B, K: 0, Qty: "0.5", BidDen: "stake", DAR: true}),
 		Buy(B, "own-order", BuySpec{Seller: B, K: 0, Qty: "0.5", DAR: true}),
 		Buy(D, "dar-not-allowed", BuySpec{Seller: B, K: 1, Qty: "0.5", DAR: true}),
-		fix(GovFeeParams(D, "0.01", "0.01")),                            // not the authority
+		fix(GovFeeParams(D, "0.01", "0.01")), // not the authority
 	}
 	good := []E{
 		fix(Sell(B, B1, "1.5", ur(3), true, nil)),
 		fix(Sell(B, B2, "1e0", ib(7), false, &e20)),
 		fix(Sell(C, B1, Eps, ur(1000003), true, &e10)),
 		fix(Sell(C, B2, "2", ur(1), false, nil)),
+		fix(SellN(B, "expiring+non-expiring", SO(B1, "0.5", ur(4), true, &e10), SO(B1, "0.25", ur(4), true, nil))),
+		fix(SellN(C, "non-expiring+expiring", SO(B1, "0.5", ib(4), true, nil), SO(B2, "0.25", ib(4), false, &e20))),
+		UpdateTwice(B, 0, "0.75", "0.5"),
+		UpdateTwice(B, 0, "1.5", "2"),
 		UpdateOrder(B, B, 0, "2.5", nil, true, nil),
 		UpdateOrder(B, B, 0, "0.5", nil, true, &e20),
 		UpdateOrder(B, B, 1, "", pcoin("uregen", 5), false, nil),
@@ -191,7 +202,7 @@ func Market() Spec {
 		fix(Retire(C, B1, "1")),
 	}
 	return Spec{Name: "market", Seeds: []explore.Seed{PreparedSeed("prepared"), FreshCoreSeed()},
-		Events: append(good, bad...), DepthQuick: 3, DepthThor: 5, ExpectFail: expectFail(names(bad...)...), MinStates: 500}
+		Events: append(good, bad...), DepthQuick: 4, DepthThor: 5, ExpectFail: expectFail(names(bad...)...), MinStates: 500}
 }
 
 // Bridge: the three issuing entry points with origin txs, bridge out, cancel.
@@ -203,9 +214,9 @@ func BridgeSpec() Spec {
 		fix(BridgeReceive(A, "C01", "VCS-2", B, "1", date(2021, 1, 1), date(2022, 1, 1), tx(1, "polygon", Contract1))), // tx 1 consumed by the seed
 		fix(BridgeReceive(A, "C01", "VCS-2", B, "1", date(2021, 1, 1), date(2022, 1, 1), tx(9, "other", Contract2))),   // chain not allowed
 		fix(BridgeReceive(D, "C01", "VCS-2", B, "1", date(2021, 1, 1), date(2022, 1, 1), tx(8, "polygon", Contract2))), // not an issuer
-		fix(Bridge(B, "polygon", Cr(B1, "1"))),                                                                         // b1 has no contract
-		fix(Bridge(B, "other", Cr(B3, "1"))),                                                                           // target not allowed
-		fix(Mint(A, B3, B, "1", "0", tx(1, "polygon", ""))),                                                            // replay through mint
+		fix(Bridge(B, "polygon", Cr(B1, "1"))),              // b1 has no contract
+		fix(Bridge(B, "other", Cr(B3, "1"))),                // target not allowed
+		fix(Mint(A, B3, B, "1", "0", tx(1, "polygon", ""))), // replay through mint
 	}
 	good := []E{
 		fix(BridgeReceive(A, "C01", "VCS-1", C, "1.5", date(2021, 1, 1), date(2022, 1, 1), tx(2, "polygon", Contract1))), // bound contract => mints into b3
@@ -225,7 +236,7 @@ func BridgeSpec() Spec {
 		fix(Msg("gov:add-bridge-chain(POLYGON)", &basetypes.MsgAddAllowedBridgeChain{Authority: G.String(), ChainName: "POLYGON"})),
 	}
 	return Spec{Name: "bridge", Seeds: []explore.Seed{PreparedSeed("prepared")},
-		Events: append(good, bad...), DepthQuick: 3, DepthThor: 5, ExpectFail: expectFail(names(bad...)...), MinStates: 300}
+		Events: append(good, bad...), DepthQuick: 5, DepthThor: 7, ExpectFail: expectFail(names(bad...)...), MinStates: 300}
 }
 
 // Large: the 34-significant-digit amount through every ledger.
@@ -249,7 +260,7 @@ func Large() Spec {
 		MintFresh(A, B1, C, Eps, "0"),
 	}
 	return Spec{Name: "large", Seeds: []explore.Seed{PreparedSeed("prepared")},
-		Events: good, DepthQuick: 3, DepthThor: 5, MinStates: 200}
+		Events: good, DepthQuick: 5, DepthThor: 6, MinStates: 200}
 }
 
 // Expiry: orders with every expiry kind against block-time sequences (C12).
@@ -267,8 +278,12 @@ func Expiry() Spec {
 		fix(Sell(B, B2, "1", ur(2), true, &e10n)),
 		fix(Sell(C, B1, "1.5", ur(5), false, &e20)),
 		fix(Sell(C, B2, "1", ur(5), true, nil)),
-		UpdateOrder(B, B, 1, "0.5", nil, false, &e20),  // B's 2nd order (expiring T0+10s in the seed): new expiry + qty down
-		UpdateOrder(B, B, 0, "2", nil, true, &e10),     // B's non-expiring order gets an expiry and more quantity
+		fix(SellN(B, "expiring+non-expiring", SO(B1, "0.5", ur(4), true, &e10), SO(B1, "0.25", ur(4), true, nil))),
+		fix(SellN(C, "non-expiring+expiring", SO(B1, "0.5", ur(4), true, nil), SO(B1, "0.25", ur(4), true, &e10n))),
+		UpdateTwice(B, 1, "0.5", "0.5"),
+		UpdateTwice(B, 1, "0.25", "0.75"),
+		UpdateOrder(B, B, 1, "0.5", nil, false, &e20), // B's 2nd order (expiring T0+10s in the seed): new expiry + qty down
+		UpdateOrder(B, B, 0, "2", nil, true, &e10),    // B's non-expiring order gets an expiry and more quantity
 		UpdateOrder(C, C, 0, "0.5", nil, true, &e10n),
 		Buy(D, "B1-half", BuySpec{Seller: B, K: 1, Qty: "0.5", MaxFee: I64(100)}),
 		Buy(D, "C0-half", BuySpec{Seller: C, K: 0, Qty: "0.5", DAR: true, MaxFee: I64(100)}),
@@ -281,7 +296,7 @@ func Expiry() Spec {
 		fix(Next(365 * 24 * time.Hour)),
 	}
 	return Spec{Name: "expiry", Seeds: []explore.Seed{PreparedSeed("prepared"), FreshCoreSeed()},
-		Events: append(good, bad...), DepthQuick: 4, DepthThor: 6, ExpectFail: expectFail(names(bad...)...), MinStates: 500}
+		Events: append(good, bad...), DepthQuick: 5, DepthThor: 6, ExpectFail: expectFail(names(bad...)...), MinStates: 500}
 }
 
 // GovPool: the marketplace fee pool under authority and non-authority
@@ -317,7 +332,7 @@ func GovPool() Spec {
 		fix(BankSend("BankSend(D->B,5ibc)", D, B, coin(IBC, 5))),
 	}
 	return Spec{Name: "govpool", Seeds: []explore.Seed{seed},
-		Events: append(good, bad...), DepthQuick: 3, DepthThor: 5, ExpectFail: expectFail(names(bad...)...), MinStates: 300}
+		Events: append(good, bad...), DepthQuick: 4, DepthThor: 5, ExpectFail: expectFail(names(bad...)...), MinStates: 300}
 }
 
 // BasketLarge: basket totals beyond 34 significant digits (C05).
@@ -336,5 +351,5 @@ func BasketLarge() Spec {
 		fix(BankSend("BankSend(B->C,1NCT)", B, C, coin(NCT, 1))),
 	}
 	return Spec{Name: "basket-large", Seeds: []explore.Seed{PreparedSeed("prepared")},
-		Events: good, DepthQuick: 4, DepthThor: 6, MinStates: 100}
+		Events: good, DepthQuick: 6, DepthThor: 8, MinStates: 100}
 }
